@@ -58,3 +58,12 @@ prop("C06", "fault_enumeration",
 prop("C20", "exploration",
      "2-4 concurrent requests from one real requestor to one real responder over one generated DAG with heavy sharing (roots drawn among its dag-cbor blocks), default dedup scope, 4-way store split; per request the delivered nodes must contain, in order, everything the request delivers when run alone and nothing outside a traversal over the union of both stores; distinct = distinct trace hash",
      _b(1500, 90, 60000, 1500))
+
+prop("C22", "fault_enumeration",
+     "two real nodes, two concurrent requests over disjoint DAGs; one panic injected per run, enumerated over function in {storage read, storage commit, prototype chooser, node reifier, codec decode} x side in {requestor, responder} x call index 1..6 of that function for the victim request; a crash of the worker process is attributed to the run; the sibling must deliver exactly the reference traversal, the victim must end with an error and the panic callback must have received the value; distinct = distinct trace hash",
+     _b(800, 90, 30000, 1200), crash_is_violation=True,
+     technique="deterministic simulation with enumerated panic injection; process-crash attribution by the parent")
+
+prop("C21", "exploration",
+     "one real responder with MaxInProgressIncomingRequests 1-4 and per-peer limit 0-3, 2-4 real requestors with MaxInProgressOutgoingRequests 1-3, 3-10 requests issued in bursts and trickles as the scheduler decides; task duration = how long the scheduler holds each request's block loads (load weight drawn per run); some queued requests are cancelled (which freezes the peer in go-peertaskqueue until the 100 ms thaw ticker fires on the fake clock); invariant after every step: traversals parked in a responder block load <= limits, requestor executions announced and still holding their connection protection <= outgoing limit; at the end every non-cancelled request delivered the reference traversal; distinct = distinct trace hash",
+     _b(800, 90, 30000, 1200), probes=["c21-cancel"])
